@@ -38,9 +38,12 @@ def run(ctx):
     tdir = os.path.join(ctx.work, "traces")
     os.makedirs(tdir)
     builds = [("default", ctx.build_harness("harness"), {}),
-              ("poisoned", ctx.build_harness("harness_poison", extra_overlay_dir=os.path.join(VERIF, "hooks_poison")), {}),
+              # poisoned field/pool and the adversarial (shared, last-in-first-out, yielding) sync.Pool of hooks_std
+              ("poisoned", ctx.build_harness("harness_poison", extra_overlay_dir=os.path.join(VERIF, "hooks_poison"),
+                                             std_overlay_dir=os.path.join(VERIF, "hooks_std")), {}),
               # the race detector does not see writes made inside assembly: build with purego
-              ("race", ctx.build_harness("harness_race", tags=("verif", "purego"), race=True), {"GORACE": "halt_on_error=0 exitcode=0"})]
+              ("race", ctx.build_harness("harness_race", tags=("verif", "purego"), race=True,
+                                         std_overlay_dir=os.path.join(VERIF, "hooks_std")), {"GORACE": "halt_on_error=0 exitcode=0"})]
     combined = os.path.join(tdir, "c18_all.ndjson")
     n = 0
     with open(combined, "w") as out:
